@@ -114,6 +114,9 @@ type Task struct {
 	wakeAt    int64
 	selChans  []reflect.Value
 	selIndex  int
+	// selPeekOnly: the task waits in Recv: wake it when the channel is ready
+	// but leave the value for the task to receive itself
+	selPeekOnly bool
 
 	goschedSeq uint64
 	yielding   bool   // called Gosched and not every other runnable task has stepped since
@@ -616,7 +619,7 @@ func (s *Sim) allSpinning() bool {
 			if t.bk == bkSleep {
 				return false
 			}
-			if t.bk == bkSelect && s.selReadyPeek(t) {
+			if t.bk == bkSelect && (s.selReadyPeek(t) || (t.selPeekOnly && s.selPoll(t))) {
 				return false
 			}
 		}
@@ -801,6 +804,9 @@ func (s *Sim) describe(head string) string {
 //
 //go:norace
 func (s *Sim) pick(self *Task) *Task {
+	if chanPollNeeded() {
+		s.pollSel = true
+	}
 	if s.pollSel {
 		s.pollSel = false
 		for _, t := range s.tasks {
@@ -1171,6 +1177,18 @@ func (s *Sim) sel(chans []interface{}) int {
 //
 //go:norace
 func (s *Sim) selPoll(t *Task) bool {
+	if t.selPeekOnly {
+		for _, c := range t.selChans {
+			if c.IsValid() && !c.IsNil() && (c.Len() > 0 || chanClosed(c)) {
+				if t.state == stBlocked {
+					t.state = stRunnable
+					t.bk = bkNone
+				}
+				return true
+			}
+		}
+		return false
+	}
 	for i, c := range t.selChans {
 		if !c.IsValid() || c.IsNil() {
 			continue
@@ -1287,4 +1305,18 @@ func parkRecv(c chan struct{}) {
 	raceDisable()
 	<-c
 	raceEnable()
+}
+
+// chanClosed: a closed channel is always ready for receiving. reflect offers
+// no direct test; a select with a default case tells (nothing is consumed from
+// an open empty channel; from a closed one only the zero value comes).
+func chanClosed(c reflect.Value) bool {
+	if c.Len() > 0 {
+		return false
+	}
+	chosen, _, ok := reflect.Select([]reflect.SelectCase{
+		{Dir: reflect.SelectRecv, Chan: c},
+		{Dir: reflect.SelectDefault},
+	})
+	return chosen == 0 && !ok
 }
